@@ -52,11 +52,31 @@ pub fn explore(ex: &Ex) {
             }
         });
     }
+    // key material is opaque: every registered, private-use and text curve x byte strings around every
+    // field size under x / y / d (and k), for the key types that use them
+    {
+        use crate::refiana::Reg;
+        let mut crvs: Vec<Item> = crate::refiana::table(Reg::EllipticCurve).iter().map(|(_, v)| gen::i(*v as i128)).collect();
+        crvs.extend([gen::i(-65537), gen::i(i64::MIN as i128), gen::t("crv"), gen::u(99)]);
+        let lens = [0usize, 1, 28, 31, 32, 33, 47, 48, 49, 55, 56, 57, 58, 65, 66, 67];
+        ex.bound("c10.curves", "curves_x_lengths", json!([crvs.len(), lens.len()]));
+        par_partitions(ex.rep, crvs, |crv, l| {
+            for kty in [1u64, 2, 4] {
+                for lab in [-2i128, -3, -4] {
+                    for n in lens {
+                        let m = gen::map(vec![(gen::u(1), gen::u(kty)), (gen::i(-1), crv.clone()), (gen::i(lab), gen::b(&gen::pattern(n)))]);
+                        l.state(1);
+                        ex.decode(l, "c10.curves", Ty::Key, Entry::Slice, &m.det());
+                    }
+                }
+            }
+        });
+    }
     {
         use gen::{b, i, t, u};
         let typed = vec![(u(1), u(2)), (u(2), b(b"kid")), (u(3), i(-7)), (u(4), gen::arr(vec![u(2), u(1), t("x")])), (u(5), b(b"iv"))];
         let faults = vec![(u(2), b(b"")), (u(1), u(0)), (u(4), gen::arr(vec![u(1), u(1)])), (u(1000), u(0)), (crate::refcbor::NULL, u(1))];
-        super::wide_maps(ex, "c10.wide", &|k| if k % 3 == 0 { (t(&format!("x{}", k)), u(k as u64)) } else if k % 3 == 1 { (u(1000 + k as u64), b(b"v")) } else { (i(-1000 - k as i128), crate::refcbor::NULL) }, &typed, &faults, &|m, l| {
+        super::wide_maps(ex, "c10.wide", &|k| if k == 1 { (u(0), u(7)) } else if k % 3 == 0 { (t(&format!("x{}", k)), u(k as u64)) } else if k % 3 == 1 { (u(1000 + k as u64), b(b"v")) } else { (i(-1000 - k as i128), crate::refcbor::NULL) }, &typed, &faults, &|m, l| {
             ex.decode(l, "c10.wide", Ty::Key, Entry::Slice, m);
             let ks = [&[0x82u8][..], &gen::map(vec![(u(1), u(1))]).det(), m].concat();
             ex.decode(l, "c10.wide", Ty::KeySet, Entry::Slice, &ks);
